@@ -531,3 +531,114 @@ func init() {
 		}
 	}
 }
+
+// ---- time: one abstract monotone clock; time.Time values carry an instant (nanoseconds, mathematical integer) ----
+func (x *FnExec) instantOf(t string) string {
+	tt := x.timeType
+	if tt == nil {
+		return "0"
+	}
+	x.q.declareFun("lib_instant", []string{x.q.sortOf(tt)}, "Int")
+	return "(lib_instant " + t + ")"
+}
+
+func init() {
+	setTT := func(x *FnExec, t types.Type) {
+		if x.timeType == nil {
+			if p, ok := t.Underlying().(*types.Pointer); ok {
+				t = p.Elem()
+			}
+			x.timeType = t
+		}
+	}
+	regLib("time.Now", func(x *FnExec, fr *frame, n *node, in ssa.Instruction, c *ssa.CallCommon, args []Val, reach, hint string) (Val, error) {
+		rt := resultType(in, c)
+		setTT(x, rt)
+		r := x.havocVal(hint, rt, reach)
+		// the clock never goes backwards
+		clk := x.heapGet(n.st, "$clock", "Int")
+		x.q.assert(fmt.Sprintf("(>= %s %s)", x.instantOf(r.S), clk))
+		x.heapSet(n.st, "$clock", "Int", x.instantOf(r.S))
+		x.trusted["time: one abstract monotone clock; Time.Add/After/Before/Sub are integer arithmetic on instants"] = true
+		return r, nil
+	})
+	clockW := func(x *FnExec, c *ssa.CallCommon, out map[string]bool) {
+		x.q.heapDecl("$clock", "Int")
+		out["$clock"] = true
+	}
+	libModels["time.Now"].writes = clockW
+	regLib("k8s.io/apimachinery/pkg/apis/meta/v1.Now", func(x *FnExec, fr *frame, n *node, in ssa.Instruction, c *ssa.CallCommon, args []Val, reach, hint string) (Val, error) {
+		return x.havocVal(hint, resultType(in, c), reach), nil
+	})
+	regLib("(time.Time).Add", func(x *FnExec, fr *frame, n *node, in ssa.Instruction, c *ssa.CallCommon, args []Val, reach, hint string) (Val, error) {
+		rt := resultType(in, c)
+		setTT(x, rt)
+		r := x.havocVal(hint, rt, reach)
+		x.q.assert(eq(x.instantOf(r.S), fmt.Sprintf("(+ %s %s)", x.instantOf(args[0].S), args[1].S)))
+		return r, nil
+	})
+	cmpT := func(op string) func(x *FnExec, fr *frame, n *node, in ssa.Instruction, c *ssa.CallCommon, args []Val, reach, hint string) (Val, error) {
+		return func(x *FnExec, fr *frame, n *node, in ssa.Instruction, c *ssa.CallCommon, args []Val, reach, hint string) (Val, error) {
+			setTT(x, c.Args[0].Type())
+			return Val{S: x.q.define(hint, "Bool", fmt.Sprintf("(%s %s %s)", op, x.instantOf(args[0].S), x.instantOf(args[1].S))), T: types.Typ[types.Bool]}, nil
+		}
+	}
+	regLib("(time.Time).After", cmpT(">"))
+	regLib("(time.Time).Before", cmpT("<"))
+	regLib("(time.Time).Equal", cmpT("="))
+	regLib("(time.Time).Sub", func(x *FnExec, fr *frame, n *node, in ssa.Instruction, c *ssa.CallCommon, args []Val, reach, hint string) (Val, error) {
+		setTT(x, c.Args[0].Type())
+		return Val{S: x.q.define(hint, "Int", fmt.Sprintf("(- %s %s)", x.instantOf(args[0].S), x.instantOf(args[1].S))), T: resultType(in, c)}, nil
+	})
+	regLib("time.Since", func(x *FnExec, fr *frame, n *node, in ssa.Instruction, c *ssa.CallCommon, args []Val, reach, hint string) (Val, error) {
+		setTT(x, c.Args[0].Type())
+		clk := x.heapGet(n.st, "$clock", "Int")
+		now := x.q.freshConst(hint+"_now", "Int")
+		x.q.assert(fmt.Sprintf("(>= %s %s)", now, clk))
+		x.heapSet(n.st, "$clock", "Int", now)
+		return Val{S: x.q.define(hint, "Int", fmt.Sprintf("(- %s %s)", now, x.instantOf(args[0].S))), T: resultType(in, c)}, nil
+	})
+	// (value, error) parsers as deterministic functions
+	for goName, spec := range map[string]string{"time.ParseDuration": "parseDuration"} {
+		goName, spec := goName, spec
+		regLib(goName, func(x *FnExec, fr *frame, n *node, in ssa.Instruction, c *ssa.CallCommon, args []Val, reach, hint string) (Val, error) {
+			rt := resultType(in, c).(*types.Tuple)
+			okF := x.q.declareFun("pf_"+spec+"OK", []string{"Str"}, "Bool")
+			valF := x.q.declareFun("pf_"+spec+"Val", []string{"Str"}, x.q.sortOf(rt.At(0).Type()))
+			res := x.havocVal(hint, rt, reach)
+			ok := fmt.Sprintf("(%s %s)", okF, args[0].S)
+			x.q.assert(eq(eq(res.Tuple[1].S, "inil"), ok))
+			x.q.assert(implies(ok, eq(res.Tuple[0].S, fmt.Sprintf("(%s %s)", valF, args[0].S))))
+			return res, nil
+		})
+		specLibFuncs[spec+"OK"] = func(x *FnExec, c *evalCtx, args []Val) (Val, error) {
+			fn := x.q.declareFun("pf_"+spec+"OK", []string{"Str"}, "Bool")
+			return Val{S: fmt.Sprintf("(%s %s)", fn, args[0].S), T: types.Typ[types.Bool]}, nil
+		}
+		specLibFuncs[spec+"Val"] = func(x *FnExec, c *evalCtx, args []Val) (Val, error) {
+			fn := x.q.declareFun("pf_"+spec+"Val", []string{"Str"}, x.q.intSort())
+			return Val{S: fmt.Sprintf("(%s %s)", fn, args[0].S), T: tInt}, nil
+		}
+	}
+	// spec-level: instant(t time.Time) and clock()
+	specLibFuncs["instant"] = func(x *FnExec, c *evalCtx, args []Val) (Val, error) {
+		if args[0].T != nil {
+			t := args[0].T
+			// metav1.Time wraps time.Time: look through
+			if st, ok := t.Underlying().(*types.Struct); ok && st.NumFields() == 1 && st.Field(0).Name() == "Time" {
+				inner := x.q.structGet(t, args[0].S, 0)
+				if x.timeType == nil {
+					x.timeType = st.Field(0).Type()
+				}
+				return Val{S: x.instantOf(inner), T: tInt}, nil
+			}
+			if x.timeType == nil {
+				x.timeType = t
+			}
+		}
+		return Val{S: x.instantOf(args[0].S), T: tInt}, nil
+	}
+	specLibFuncs["clock"] = func(x *FnExec, c *evalCtx, args []Val) (Val, error) {
+		return Val{S: x.heapGet(c.state(), "$clock", "Int"), T: tInt}, nil
+	}
+}
